@@ -40,10 +40,13 @@ mod refzone;
 mod vrt;
 
 mod chain;
+mod cli;
 mod fault;
 mod hier;
 mod keys;
 mod oracle;
+mod rec;
+mod rnet;
 mod server;
 mod upstream;
 mod world;
@@ -903,6 +906,14 @@ fn main() {
                     }
                 }
                 // the honest signer's signature registry must know the whole zone before judging
+                if c["mode"].as_str() == Some("cli") {
+                    cli::replay(&mut rep, &lab.attacker, &h, c);
+                    rep.replay_finish();
+                }
+                if c["mode"].as_str() == Some("rec") {
+                    rec::replay(&mut rep, &lab.attacker, &b, &h.to_json(), c, ctx.extra.contains_key("dump"));
+                    rep.replay_finish();
+                }
                 let mut j = Judge { rep: &mut rep, lab: &lab, hier_json: h.to_json(), hier_hash: fnv64(h.to_json().to_string().as_bytes()) };
                 if let (Some(fl), Some(st)) = (c["server_flags"].as_str(), steps.last()) {
                     j.server_case(&b, st, flags_from_label(fl));
@@ -962,6 +973,43 @@ fn main() {
         rep.must(&format!("faultvariant/fake-insecure-delegation:{v}"), 30);
     }
     let _ = (RESPONSE_KINDS, CHAIN_KINDS);
+    // validating-recursor point (R)
+    rep.must("rec/hierarchies", 80);
+    rep.must("rec/honest_secure", 600);
+    rep.must("rec/honest_secure/nsec", 300);
+    rep.must("rec/honest_secure/nsec3", 280);
+    rep.must("rec/honest_secure_denial_records", 200);
+    rep.must("rec/honest_insecure", 190);
+    rep.must("rec/honest_expected_marks/ds-good", 200);
+    for class in ["root", "no-ds", "island", "ds-unsupported-alg", "ds-unsupported-digest", "ds-mixed", "ds-standby"] {
+        rep.must(&format!("rec/honest_expected_marks/{class}"), 15);
+    }
+    rep.must("rec/cache_second_resolve", 1000);
+    rep.must("rec/cache_second_resolve_without_network", 1000);
+    rep.must("rec/cache_second_resolve_other_do", 500);
+    rep.must("rec/history_honest_after_rejected_tampering", 3000);
+    rep.must("rec/tampered_runs_where_the_fault_hit", 14_000);
+    for (k, n) in [("alter-bit", 1800), ("drop", 1800), ("replace-genuine", 1800), ("inject-forged", 1900), ("strip-rrsigs", 1300), ("strip-denial", 280), ("flip-rcode", 1600), ("empty-section", 1600), ("replay-other", 1300), ("attacker-keyset", 400), ("attacker-ds", 270), ("attacker-chain", 200), ("fake-insecure-delegation", 600), ("ancestor-denial", 200), ("fake-cut", 80), ("insecure-soa-denial", 170), ("cross-zone-signature", 190)] {
+        rep.must(&format!("rec/tampered_runs/{k}"), n);
+    }
+    for k in ["alter-bit", "drop", "replace-genuine", "inject-forged", "strip-rrsigs", "flip-rcode", "empty-section", "replay-other", "fake-insecure-delegation"] {
+        rep.must(&format!("rec/fault/{k}/referral"), 250);
+    }
+    for l in ["answer", "denial", "dnskey", "ds"] {
+        rep.must(&format!("rec/fault/alter-bit/{l}"), 200);
+        rep.must(&format!("rec/fault/strip-rrsigs/{l}"), 100);
+    }
+    rep.must("rec/hierarchies_with_nsec3_limits_configured", 20);
+    rep.must("rec/nsec3_over_hard_limit_honest_resolves_rejected", 9);
+    // DnssecClient point (D)
+    rep.must("cli/hierarchies", 80);
+    rep.must("cli/queries", 6000);
+    rep.must("cli/secure", 680);
+    rep.must("cli/insecure", 240);
+    rep.must("cli/history_runs", 680);
+    for (k, n) in [("alter-bit", 500), ("drop", 500), ("replace-genuine", 430), ("inject-forged", 490), ("strip-rrsigs", 420), ("strip-denial", 65), ("flip-rcode", 470), ("empty-section", 470), ("replay-other", 360), ("attacker-keyset", 180), ("attacker-ds", 125), ("attacker-chain", 110), ("fake-insecure-delegation", 140), ("ancestor-denial", 110), ("fake-cut", 40), ("insecure-soa-denial", 85), ("cross-zone-signature", 80)] {
+        rep.must(&format!("cli/tampered_runs/{k}"), n);
+    }
 
     let attacker_tags = lab.attacker.tag_table();
     let collision = hier::find_collision(6000);
@@ -979,6 +1027,13 @@ fn main() {
     let n_hist = if thorough { 8 } else { 4 };
     let n_server = if thorough { 40 } else { 6 };
     let server_on = ctx.extra.get("server").map_or(true, |v| v != "0");
+    // development aid: --only=old | rec | cli runs one part of the workload (the must-counters of the others then fail)
+    let only = ctx.extra.get("only").cloned();
+    let old_on = only.as_deref().map_or(true, |v| v == "old");
+    let rec_on = only.as_deref().map_or(true, |v| v == "rec");
+    let cli_on = only.as_deref().map_or(true, |v| v == "cli");
+    let cli_params = cli::CParams { n_queries: if thorough { 9 } else { 6 }, cap_single: if thorough { 60 } else { 16 }, n_hist: if thorough { 6 } else { 4 } };
+    let rec_params = rec::RParams { n_queries: if thorough { 9 } else { 6 }, cap_single: if thorough { 80 } else { 24 }, n_hist: if thorough { 9 } else { 6 } };
 
     for hi in 0..n_hier {
         let global_idx = ctx.shard + ctx.nshards * hi;
@@ -1015,6 +1070,15 @@ fn main() {
 
         // ---- honest pass + recording ------------------------------------------------------------
         let queries = pick_queries(&mut rng, t, n_queries);
+        if rec_on {
+            rec::workload(&mut *j.rep, &lab.attacker, &b, &hj, hier_hash, &queries, &attacker_tags, &rec_params);
+        }
+        if cli_on {
+            cli::workload(&mut *j.rep, &lab.attacker, &h, hier_hash, &queries, &attacker_tags, &cli_params);
+        }
+        if !old_on {
+            continue;
+        }
         let mut recorded: Vec<(QueryCase, Vec<Exchange>)> = Vec::new();
         let mut pool: Vec<Rec> = Vec::new();
         let mut tops: Vec<Exchange> = Vec::new();
